@@ -27,6 +27,7 @@ FEATURES = [
     "poison",  # utility NaN/inf/huge at infeasible choices
     "excluded_states",  # some restricted-state combination has no passing choice
     "two_stochastic",  # >= 2 stochastic states (joint expectation over a product of nodes)
+    "scalar_aux",  # an auxiliary function written for scalars (stacks its arguments and reduces them)
 ]
 
 STATE_NAMES = ["wealth", "health", "lagret", "educ", "exper", "assets", "kids"]
@@ -213,7 +214,7 @@ def gen_model(rng, cfg=None, feats=None):
     cS = [k for k, v in states if v["kind"] != "disc"]
     dC = [k for k, v in choices if v["kind"] == "disc"]
     cC = [k for k, v in choices if v["kind"] != "disc"]
-    T = int(rng.integers(1, cfg["max_T"] + 1))
+    T = int(rng.integers(cfg.get("min_T", 1), cfg["max_T"] + 1))
     need_T2 = any(
         F[k]
         for k in (
@@ -262,6 +263,17 @@ def gen_model(rng, cfg=None, feats=None):
             functions.append(["netinc", ["income", p2], f"income * (1 - 0.1 * {p2})"])
             params["netinc"] = {p2: rnd(rng, 0.5, 3)}
             aux.append("netinc")
+
+    scalar_functions = []
+    if F.get("scalar_aux") and len(spec) >= 2:
+        # valid user code under lcm's contract (functions are called with scalars): a full
+        # reduction over the stacked arguments; only correct if evaluated row by row
+        two = [str(x) for x in rng.permutation(list(spec))[:2]]
+        functions.append(["resources", two, f"xp.sum(xp.asarray([{two[0]}, 0.5 * {two[1]}]))"])
+        params["resources"] = {}
+        aux.append("resources")
+        scalar_functions.append("resources")
+        realised["scalar_aux"] = True
 
     # ---------------------------------------------------------------- filters
     filters = []
@@ -410,6 +422,9 @@ def gen_model(rng, cfg=None, feats=None):
     if "netinc" in aux and rng.random() < 0.7:
         uargs.append("netinc")
         terms.append(f"{rnd(rng, 0.01, 0.2)} * netinc")
+    if "resources" in aux:
+        uargs.append("resources")
+        terms.append(f"{rnd(rng, 0.005, 0.05)} * resources")
     if F["period_utility"]:
         if "age" in aux and rng.random() < 0.5:
             uargs.append("age")
@@ -582,6 +597,7 @@ def gen_model(rng, cfg=None, feats=None):
         "tables": tables,
         "params": params,
         "frozen_params": frozen,
+        "scalar_functions": scalar_functions,
     }
     return desc, realised
 
